@@ -147,6 +147,39 @@ def find_evaluator(f):
     return parent, cor
 
 
+def evaluator_captures(f, fn_path, node_ref, ctx_ref):
+    """captures of the evaluator's coroutine in the order of the async fn's parameters: the parameter typed `&Expr`
+    receives the node, the `&mut <context>` parameter the context (either order: `expr.eval_rec(ctx)` or `ctx.eval(expr)`)"""
+    b = f.bodies[fn_path]
+    # an `async move` block captures its variables in the order the compiler chose: read it off the aggregate
+    types = None
+    for blk in b["blocks"]:
+        for st_ in blk["stmts"]:
+            if st_["k"] == "assign" and st_["rv"]["k"] == "agg" and st_["rv"].get("ak") == "coroutine":
+                types = [f.ty_s(b["locals"][o["place"]["l"]]["ty"]) if o.get("k") in ("move", "copy") else "?" for o in st_["rv"]["ops"]]
+    if types is None:
+        types = [f.ty_s(b["locals"][i]["ty"]) for i in range(1, b["arg_count"] + 1)]
+    caps = []
+    for i, t in enumerate(types):
+        if EXPR in t and "EvalContext" not in t:
+            caps.append(node_ref)
+        elif t.startswith("&mut ") or "EvalContext" in t:
+            caps.append(ctx_ref)
+        else:
+            caps.append(("sym", "arg%d" % i))
+    return tuple(caps)
+
+
+def context_lookup(f, p):
+    """a method of the evaluation context that cannot evaluate a sub-expression (no Expr parameter): a lookup"""
+    while f.bodies.get(p, {}).get("parent"):
+        p = f.bodies[p]["parent"]           # the coroutine of an async method is judged by the method
+    b = f.bodies.get(p)
+    if not b or not (b.get("impl") or {}).get("self_s", "").startswith("expr::eval::context::EvalContext"):
+        return False
+    return not any(EXPR in f.ty_s(b["locals"][i]["ty"]) for i in range(1, b["arg_count"] + 1))
+
+
 def sym_fields(it, adt, variant, prefix):
     var = it.variant(adt, variant)
     return ("adt", adt, variant, tuple(("sym", "%s.%s.%d" % (prefix, variant, j)) for j in range(len(var["fields"]))))
@@ -177,14 +210,14 @@ def dispatch_rows(f, max_paths=5000, loop_bound=2):
     rows = {}
 
     def opaque(p):
-        return p == fn_path or is_value_op(f, p) or (f.bodies.get(p, {}).get("impl") or {}).get("self_s", "").startswith("expr::eval::context::EvalContext")
+        return p == fn_path or is_value_op(f, p) or context_lookup(f, p)
 
     for var in f.adts[EXPR]["variants"]:
         it = Interp(f, opaque=opaque, max_paths=max_paths, loop_bound=loop_bound)
         st = State()
         selfv = sym_fields(it, EXPR, var["name"], "self")
         ctx = ("ref", st.alloc(("sym", "ctx")))
-        cor = ("coroutine", cor_path, (("ref", st.alloc(selfv)), ctx))
+        cor = ("coroutine", cor_path, evaluator_captures(f, fn_path, ("ref", st.alloc(selfv)), ctx))
         fid = it.new_frame(st)
         st.frames[fid][1] = cor
         st.frames[fid][2] = ("sym", "task_context")
@@ -260,7 +293,7 @@ def kind_cells(f, disp, kinds, max_paths=4000):
     functions, helpers, macros or mode parameters.  -> kind -> tag tuple -> outcomes"""
     fn_path, cor_path = disp["fn"], disp["coroutine"]
     body = f.bodies[cor_path]
-    ctx_self = lambda p: (f.bodies.get(p, {}).get("impl") or {}).get("self_s", "").startswith("expr::eval::context::EvalContext")
+    ctx_self = lambda p: context_lookup(f, p)
     out = {}
     for kind in kinds:
         var = next((v for v in f.adts[EXPR]["variants"] if v["name"] == kind), None)
@@ -302,16 +335,16 @@ def kind_cells(f, disp, kinds, max_paths=4000):
 
             def hook(itp, s_, fut, results=results):
                 if fut[0] == "call" and (fut[1] == fn_path or fut[1].split("::<")[0] == fn_path or short_of(fut[1]) == short_of(fn_path)) and fut[2]:
-                    a0 = fut[2][0]
-                    while a0[0] in ("rref", "box"):
-                        a0 = a0[1]
-                    if a0[0] == "sym" and a0[1] in results:
-                        return ("adt", "std::result::Result", "Ok", (results[a0[1]],))
+                    for a0 in fut[2]:
+                        while a0[0] in ("rref", "box"):
+                            a0 = a0[1]
+                        if a0[0] == "sym" and a0[1] in results:
+                            return ("adt", "std::result::Result", "Ok", (results[a0[1]],))
                 return None
             it.await_hook = hook
             selfv = ("adt", EXPR, kind, tuple(fields))
             ctx = ("ref", st.alloc(("sym", "ctx")))
-            cor = ("coroutine", cor_path, (("ref", st.alloc(selfv)), ctx))
+            cor = ("coroutine", cor_path, evaluator_captures(f, fn_path, ("ref", st.alloc(selfv)), ctx))
             fid = it.new_frame(st)
             st.frames[fid][1] = cor
             st.frames[fid][2] = ("sym", "task_context")
